@@ -22,7 +22,7 @@ fn line(parts: Vec<Part>) -> Stmt {
 
 /// names of the slot items (index = alphabet position); `i` = slot index for unique labels
 pub const ITEM_NAMES: &[&str] = &[
-    "text", "asg", "print", "glue-end", "glue-start", "tag", "cond-inline", "seq", "cycle", "once", "if-block", "fcall-value", "fcall-text", "fstmt-text", "tunnel", "temp", "string", "choice-basic", "choice-bracket", "choice-label", "choice-cond", "choice-fallback", "choice-nested", "thread", "count-knot", "turns-since", "choice-count", "divert-k2-back",
+    "text", "asg", "print", "glue-end", "glue-start", "tag", "cond-inline", "seq", "cycle", "once", "if-block", "fcall-value", "fcall-text", "fstmt-text", "tunnel", "temp", "string", "choice-basic", "choice-bracket", "choice-label", "choice-cond", "choice-fallback", "choice-nested", "thread", "count-knot", "turns-since", "choice-count", "divert-k2-back", "fcall-nested",
 ];
 
 pub fn item(a: usize, i: usize) -> Vec<Stmt> {
@@ -45,6 +45,8 @@ pub fn item(a: usize, i: usize) -> Vec<Stmt> {
         "fcall-value" => vec![line(vec![t("Call "), p(Expr::Call("fval".into(), vec![x()])), t(".")])],
         "fcall-text" => vec![line(vec![t("Says "), p(Expr::Call("ftext".into(), vec![])), t(" ok.")])],
         "fstmt-text" => vec![Stmt::CallStmt(Expr::Call("ftalk".into(), vec![]))],
+        // the first text of the outer function comes from a nested call, then the outer goes on
+        "fcall-nested" => vec![line(vec![p(Expr::Call("fouter".into(), vec![]))])],
         "tunnel" => vec![Stmt::Tunnel("tun".into())],
         "temp" => vec![
             Stmt::Assign { name: lab("tmp"), expr: Expr::bin(x(), BinOp::Mul, Expr::Int(2)), kind: AssignKind::Set, temp_decl: true },
@@ -168,6 +170,7 @@ pub fn seg_nth(k: usize, a: usize, mut idx: usize) -> (String, Program) {
             Knot { name: "tun".into(), params: vec![], is_function: false, body: vec![xplus(100), line(vec![t("In tunnel "), p(x()), t(".")]), Stmt::TunnelReturn], stitches: vec![] },
             Knot { name: "fval".into(), params: vec!["v".into()], is_function: true, body: vec![Stmt::Return(Some(Expr::bin(Expr::var("v"), BinOp::Add, Expr::Int(1))))], stitches: vec![] },
             Knot { name: "ftext".into(), params: vec![], is_function: true, body: vec![Stmt::line("spoken")], stitches: vec![] },
+            Knot { name: "fouter".into(), params: vec![], is_function: true, body: vec![line(vec![p(Expr::Call("ftext".into(), vec![]))]), line(vec![t("Outer second "), p(x()), t(".")])], stitches: vec![] },
             Knot {
                 name: "ftalk".into(),
                 params: vec![],
